@@ -7,7 +7,7 @@ SIM_LOCK = SIM_COMMON + ['storage seam: per-node kvs.Storage wrapper that parks 
 ASSUME_LOCK = ['scheduler fairness bound F', 'interleavings at yield granularity (storage call boundaries, lock/channel/atomic/select inside distlock, inmem, timeout)', 'per-step jitter is capped at lease/(16*F) so the scheduler cannot starve a renewal past its lease']
 
 REAL_KV = ['kvs/inmem (rewritten copy)', 'kvs/redis client code (rewritten copy) + the real go-redis v8 client', 'ulidutils (rewritten copy) + oklog/ulid (rewritten copy of the dependency: version generation)']
-SIM_KV = SIM_COMMON + ['Redis server: in-process miniredis (command semantics are its own), TCP listener closed', 'network: net.Pipe pairs with pump goroutines that park before every command delivery and every reply (command-level interleaving between connections; optional latency per command)', 'Redis TTL clock: slaved to the simulated clock before every delivered command (optionally skewed)', 'stalled threads: callers inside WaitForVersionChange that get no processor for up to seconds of simulated time (some runs)', 'Redis server that answers with error replies for a while (some C07 runs)']
+SIM_KV = SIM_COMMON + ['Redis server: in-process miniredis (command semantics are its own), TCP listener closed', 'network: net.Pipe pairs with pump goroutines that park before every command delivery and every reply (command-level interleaving between connections; optional latency per command)', 'Redis TTL clock: slaved to the simulated clock before every delivered command (optionally skewed)', 'stalled threads: callers inside WaitForVersionChange that get no processor for up to seconds of simulated time (some runs)', 'Redis server that answers with error replies for a while (some C07 runs)', 'lost requests and replies with the connection breaking (some C02 runs)', 'SCAN answered in pages by the command pump, empty pages included (a third of the Redis runs)', 'callers that overwrite their value buffers after every call (a quarter of the runs)']
 ASSUME_KV = ['scheduler fairness bound F', 'interleavings at yield granularity: every lock/select/channel point in inmem; every command and reply delivery for Redis', 'miniredis stands in for Redis (as in the repository\'s own tests)']
 
 REAL_LRU = ['container/lru (rewritten copy: cooperative mutex, in-flight channel wait through zsimrt.Recv)', 'container/iterable Map (rewritten copy; test-only node counter)']
